@@ -566,6 +566,111 @@ def r15_expanding_dims_and_links(idx, r):
         r.require(s_ in links and not conds, "resolveLinkedDims:every-link-stays-a-link", f, node=s_.stmt,
                   msg=f"`{norm(s_.stmt)[:70]}` (under {conds}) stores something else than a live link for a `component.dimension` input: the value is frozen at construction and no longer follows the other component")
 
+VALUE_READS = {"getDimension", "resolveDimension", "getBoundingCircleOuterDiameter", "getCircleInnerDiameter"}
+
+
+def _is_link_ctor(c):
+    d = dotted(c.func) or ""
+    return d.split(".")[-1] == "_DimensionLink"
+
+
+def r16_links_are_retargeted(idx, r):
+    """What a dimension is linked to is a structural fact of the block, not a function of today's numbers: two boundaries that
+    coincide at one temperature part as soon as either component is heated.
+    (a) re-targeting loops.  `owner.getDimensionNamesLinkedTo(gone)` is the inventory [(dim, dimOfOther), ...] of owner's links to a
+    component that is being taken out (dissolved into a neighbour).  A loop over that inventory that re-links at all must, on EVERY
+    path of EVERY iteration, pass through `owner.setLink(dim, <replacement>, dimOfOther)` - the pair of the iteration at the parameters
+    (key, otherCompKey) of setLink, a replacement other than `gone` at otherComp - and may not leave the loop early: a pair that is
+    skipped stays linked to the removed component and no longer follows the boundary it borders.
+    (b) every link-establishing site (a `.setLink(...)` call, a `_DimensionLink(...)` construction) is reached under conditions that do
+    not read a dimension's present value (getDimension / resolveDimension / bounding diameters), directly or through a temporary."""
+    loops = 0
+    sites = 0
+    for m in idx.modules.values():
+        if not m.name.startswith("armi.") or ".tests" in m.name:
+            continue
+        if "setLink" not in m.src and "_DimensionLink" not in m.src and "getDimensionNamesLinkedTo" not in m.src:
+            continue
+        for f in m.all_funcs():
+            calls = list(iter_calls(f.node))
+            est = [c for c in calls if call_attr(c) == "setLink" or _is_link_ctor(c)]
+            inv = [c for c in calls if call_attr(c) == "getDimensionNamesLinkedTo"]
+            if not est and not inv:
+                continue
+            env = single_assign_env(f.node)
+            where = f"{m.relpath.rsplit('/', 1)[-1]}:{f.qualname}"
+            # (b) no link decision on present values
+            for c in est:
+                sites += 1
+                reads = []
+                for t, pol in path_conditions(f.node, c):
+                    tt = propagate(t, env)
+                    if any(isinstance(x, ast.Call) and call_attr(x) in VALUE_READS for x in ast.walk(tt)):
+                        reads.append(("" if pol else "not ") + norm(tt)[:120])
+                what = "setLink" if call_attr(c) == "setLink" else "_DimensionLink"
+                r.require(not reads, f"{where}:{what}:not-decided-by-present-values", f, node=c,
+                          msg=f"the link `{norm(c)[:70]}` is established only when {reads}: whether a dimension is linked (and to what) is decided by comparing present dimension "
+                              "values; for the inputs where the numbers happen to coincide the link is not made, and the dimension stops following its neighbour at the next temperature change")
+            # (a) every pair of the inventory is re-targeted
+            for loop in [x for x in walk_local(f.node) if isinstance(x, ast.For)]:
+                it = propagate(loop.iter, env)
+                if not (isinstance(it, ast.Call) and call_attr(it) == "getDimensionNamesLinkedTo"):
+                    continue
+                gone = get_arg(it, 0, "otherComponent")
+                if gone is None:
+                    raise AnalysisError(f"{where}: getDimensionNamesLinkedTo without its component")
+                gone, owner = norm(gone), norm(it.func.value)
+                tg = loop.target
+                if isinstance(tg, (ast.Tuple, ast.List)) and len(tg.elts) == 2 and all(isinstance(e, ast.Name) for e in tg.elts):
+                    a, b = tg.elts[0].id, tg.elts[1].id
+                elif isinstance(tg, ast.Name):
+                    a, b = f"{tg.id}[0]", f"{tg.id}[1]"
+                else:
+                    raise AnalysisError(f"{where}: loop over the link inventory does not bind (dimension, dimension of the other component)")
+                inner = [c for c in iter_calls(loop) if call_attr(c) == "setLink"]
+                if not inner:
+                    r.undecided(f"{where}:inventory-of-links-to-{gone}:read-only", f, "the inventory of links is read without re-linking", node=loop)
+                    continue
+                loops += 1
+                pe = {k: v for k, v in env.items() if k not in (a, b)}
+
+                def good(c, a=a, b=b, owner=owner, gone=gone, pe=pe):
+                    if call_attr(c) != "setLink":
+                        return False
+                    k, oc, ok_ = get_arg(c, 0, "key"), get_arg(c, 1, "otherComp"), get_arg(c, 2, "otherCompKey")
+                    if k is None or oc is None or ok_ is None:
+                        return False
+                    return (norm(propagate(c.func.value, pe)) == owner and norm(propagate(k, pe)) == a and norm(propagate(ok_, pe)) == b
+                            and norm(propagate(oc, pe)) != gone)
+
+                key = f"{where}:every-link-to-{gone}-is-moved"
+                wrong = [c for c in inner if not good(c)]
+                if wrong:
+                    r.violate(key, f, f"`{norm(wrong[0])[:90]}` does not move {owner}'s link ({a} -> {gone}.{b}) to the same dimension {b} of a replacement of {gone} "
+                                      f"(setLink(key, otherComp, otherCompKey)): the dimension follows another boundary than the one it borders", node=wrong[0])
+                    continue
+
+                def ev(nd):
+                    return ["relinked"] if isinstance(nd, ast.Call) and good(nd) else []
+                fl = Flow(f.node, ev, body=loop.body).run()
+                bad = [e for e in fl.exits if e.kind in ("break", "return") or (e.kind in ("fall", "continue") and e.state.get("relinked", (0, 0))[0] < 1)]
+                if not bad:
+                    r.ok(key, f, node=loop)
+                    continue
+                e = bad[0]
+                under = []
+                if e.node is not None:
+                    under = [("" if pol else "not ") + norm(propagate(t, env))[:110] for t, pol in path_conditions(f.node, e.node)
+                             if any(x is t for x in ast.walk(loop))]
+                how = {"continue": "goes on to the next pair", "fall": "ends", "break": "leaves the loop", "return": "returns"}[e.kind]
+                r.violate(key, f, f"an iteration over {owner}'s dimensions linked to {gone} {how}" + (f" when {under}" if under else "") + f" without {owner}.setLink({a}, <replacement>, {b}) "
+                                  f"(or before the remaining pairs): that dimension stays linked to the component being removed - it equals the replacement's boundary at most at "
+                                  f"the present temperature and no longer follows it when the replacement is heated or cooled", node=e.node if e.node is not None else loop)
+    if loops < 1:
+        raise AnchorMissing("a loop over getDimensionNamesLinkedTo(<removed component>) that re-links (BlockConverter.restablishLinks)")
+    if sites < 4:
+        raise AnchorMissing(f"only {sites} link-establishing sites (setLink calls, _DimensionLink constructions) found")
+
 
 def run(idx, chk):
     chk.explanation = (
@@ -600,3 +705,5 @@ def run(idx, chk):
                  necessary="temperatures and dimensions are handed to the parameter they belong to")
     chk.run_rule("R03.15", "a narrowed expansion table keeps the parent's dimensions it stores; every dimension link stays a link", lambda r: r15_expanding_dims_and_links(idx, r), floor=4,
                  necessary="every thermally expanding dimension scales with the expansion factor; a linked dimension equals the other component's current one")
+    chk.run_rule("R03.16", "when a component is taken out, every dimension linked to it is re-linked to its replacement on every path; no link is decided by present dimension values", lambda r: r16_links_are_retargeted(idx, r), floor=5,
+                 necessary="a linked dimension equals the CURRENT dimension of the component it borders at every later temperature, not only at the temperature of the conversion")
